@@ -25,16 +25,16 @@ import (
 type Role struct {
 	partFresh map[string]bool
 	freshOnly bool
-	ID     string
-	Go     *ssa.Go
-	In     *ssa.Function // function holding the go statement
-	Roots  []*ssa.Function
-	Reach  map[*ssa.Function]bool
-	Multi  bool            // several instances at once (go in a loop, not sequenced)
-	Join   ssa.Instruction // WaitGroup.Wait joining the instances, in In
-	Scoped bool            // every instance has ended when the spawning function returns (results collected over a channel)
-	Entry  map[*ssa.Function]map[string]bool
-	PartTy map[string]bool // per-instance object types (multi roles)
+	ID        string
+	Go        *ssa.Go
+	In        *ssa.Function // function holding the go statement
+	Roots     []*ssa.Function
+	Reach     map[*ssa.Function]bool
+	Multi     bool            // several instances at once (go in a loop, not sequenced)
+	Join      ssa.Instruction // WaitGroup.Wait joining the instances, in In
+	Scoped    bool            // every instance has ended when the spawning function returns (results collected over a channel)
+	Entry     map[*ssa.Function]map[string]bool
+	PartTy    map[string]bool // per-instance object types (multi roles)
 }
 
 type RAccess struct {
@@ -47,30 +47,30 @@ type RAccess struct {
 }
 
 type RaceEngine struct {
-	lingerMemo map[*Role]bool
+	lingerMemo   map[*Role]bool
 	distinctMemo map[FieldKey]bool
-	Why map[FieldKey]map[string]int // per field: how many access pairs each mechanism ordered
-	p       *Prog
-	Roles   []*Role
-	byID    map[string]*Role
-	acc     map[FieldKey][]RAccess
-	msgTy   map[string]bool
-	after   map[*ssa.Go]map[ssa.Instruction]bool // instructions that may execute after the go statement in the spawner
-	window  map[*ssa.Go]map[ssa.Instruction]bool // ... and before the join
-	afterFn map[*ssa.Go]map[*ssa.Function]bool   // functions entered after the go statement (whole body)
-	winFn   map[*ssa.Go]map[*ssa.Function]bool
-	preMemo map[string]*preInfo
-	runMemo map[*Role]bool
-	rv      *Rendezvous
-	runFn   map[*ssa.Function]bool
-	closeHB map[*ssa.Function]map[*Role]bool // function -> roles that have ended (closed their channel) before it runs
-	stars   []RAccess
-	starsDone bool
+	Why          map[FieldKey]map[string]int // per field: how many access pairs each mechanism ordered
+	p            *Prog
+	Roles        []*Role
+	byID         map[string]*Role
+	acc          map[FieldKey][]RAccess
+	msgTy        map[string]bool
+	after        map[*ssa.Go]map[ssa.Instruction]bool // instructions that may execute after the go statement in the spawner
+	window       map[*ssa.Go]map[ssa.Instruction]bool // ... and before the join
+	afterFn      map[*ssa.Go]map[*ssa.Function]bool   // functions entered after the go statement (whole body)
+	winFn        map[*ssa.Go]map[*ssa.Function]bool
+	preMemo      map[string]*preInfo
+	runMemo      map[*Role]bool
+	rv           *Rendezvous
+	runFn        map[*ssa.Function]bool
+	closeHB      map[*ssa.Function]map[*Role]bool // function -> roles that have ended (closed their channel) before it runs
+	stars        []RAccess
+	starsDone    bool
 	closesAtExit map[*Role][]FieldKey
 	sendsAtExit  map[*Role][]FieldKey
-	endsMemo map[*Role]bool
-	reqOnly map[*ssa.Function]bool // functions reachable only from request closures (never from block processing)
-	Notes   []string
+	endsMemo     map[*Role]bool
+	reqOnly      map[*ssa.Function]bool // functions reachable only from request closures (never from block processing)
+	Notes        []string
 }
 
 func sourceTag(fn *ssa.Function) string {
@@ -1244,7 +1244,9 @@ func (e *RaceEngine) collect() {
 		for f := range r.Reach {
 			fns = append(fns, f)
 		}
-		sort.Slice(fns, func(i, j int) bool { return fns[i].Pos() < fns[j].Pos() || fns[i].Pos() == fns[j].Pos() && fns[i].String() < fns[j].String() })
+		sort.Slice(fns, func(i, j int) bool {
+			return fns[i].Pos() < fns[j].Pos() || fns[i].Pos() == fns[j].Pos() && fns[i].String() < fns[j].String()
+		})
 		for _, fn := range fns {
 			entry := r.Entry[fn]
 			if entry == nil {
